@@ -126,7 +126,7 @@ def run_case(ids, decls, path, rnd, tmp):
 
 def run(ctx):
     q = ctx.quick
-    ctx.rule = ("TLC enumerates every container (5 identifier sequences incl. all-numeric-looking ids in non-canonical form, 1-2 parameters out of 3 names "
+    ctx.rule = ("TLC enumerates every container (5 identifier sequences incl. all-numeric-looking ids in non-canonical form, 1-2 (1-3 in the thorough tier) parameters out of 3 names "
                 "x 4 shapes incl. 12 components) x 4 conversion paths of IndParams.tla and checks Lossless on the intended design and "
                 "LosslessExceptNamed on the as-built one; every case is built as a real IndividualParameters with seeded values, "
                 "converted there and back, and TLC compares status, names, shapes, identifiers and value equality with "
@@ -141,13 +141,16 @@ def run(ctx):
         ctx.add_tlc("IndParams intended design: Lossless", res)
         if res.violated:
             ctx.violation({"check": "design", "invariant": res.violated[0]}, f"IndParams.tla violates {res.violated}", replay=res.trace_text[:3000])
-    res, cs = cases.enumerate_cases("MC_IndParams", "MC_IndParams.cfg", tmp, "ip")
+    ecfg = os.path.join(tmp, "enum.cfg")
+    with open(ecfg, "w") as f:
+        f.write(open(os.path.join(tlc.SPECS, "MC_IndParams.cfg")).read().replace("MaxParams = 2", "MaxParams = 2" if q else "MaxParams = 3"))
+    res, cs = cases.enumerate_cases("MC_IndParams", ecfg, tmp, "ip")
     ctx.add_tlc("IndParams as built: LosslessExceptNamed + case enumeration", res)
     if res.violated:
         ctx.violation({"check": "design", "invariant": res.violated[0]}, f"IndParams.tla violates {res.violated}", replay=res.trace_text[:3000])
     rnd = random.Random(ctx.seed)
     recs = []
-    reps = 1 if q else 8
+    reps = 1 if q else 4
     for c in cs:
         decls = sorted(({"name": d["name"], "shape": d["shape"]} for d in (dict(x) for x in c["params"])), key=lambda d: d["name"])
         for _ in range(reps):
